@@ -965,3 +965,136 @@ func metadataIsTheConfiguredOne(c *Ctx, id string) {
 		c.Undecided(id, "metadata-wiring", 0, "only %d assignments of dcp.metadata found (backend selection, SetMetadata, read-only wrapper confirmed by hand)", n)
 	}
 }
+
+// absentMarkWriters (C07): a copy of a vBucket is left out of the persistence minimum only because the cluster map
+// does not list it. The mark that says so (the boolean the record's IsAbsent reads) is written only by the record's
+// own setter, and that setter is called only from the function that consults the cluster map (markAbsentInstances) —
+// any other caller (an error path, an "optimisation" that stops polling the active copy) takes a live copy out of the
+// minimum.
+func absentMarkWriters(c *Ctx, id string) {
+	w := c.W
+	rec := replicaStateType(w)
+	c.need(rec != nil, id, "the replica record type")
+	isAbsent := w.Method("couchbase", rec.Obj().Name(), "IsAbsent")
+	mark := w.Method("couchbase", "rollbackMitigation", "markAbsentInstances")
+	c.need(isAbsent != nil && mark != nil, id, "IsAbsent / markAbsentInstances")
+	// the field IsAbsent reads
+	var field *types.Var
+	allInstrs(isAbsent, func(in ssa.Instruction) {
+		if v, ok := in.(ssa.Value); ok {
+			if f, _ := flagRead(v); f != nil {
+				field = f
+			}
+		}
+	})
+	c.need(field != nil, id, "the flag IsAbsent reads")
+	// its writers
+	setters := map[*ssa.Function]bool{}
+	bad := ""
+	for _, fs := range w.fieldStores(field) {
+		fn := rootFn(fs.Fn)
+		if fn.Signature.Recv() != nil && recvTypeName(fn.Signature.Recv().Type()) == rec.Obj().Name() {
+			setters[fn] = true
+			continue
+		}
+		if o := w.Origin(fs.Store.Val); o == "const(false)" {
+			continue // (a fresh record starts present)
+		}
+		bad += " " + fname(fn) + "@" + w.pos(fs.Store.Pos())
+	}
+	c.Check(len(setters) > 0 && bad == "", id, "absent-mark:writers", isAbsent.Pos(), fmt.Sprintf("the absent mark is written by %d setter(s) of the record only", len(setters)), "the absent mark is written outside the record's own setter:"+bad)
+	// callers of the setters
+	n := 0
+	badCall := ""
+	for s := range setters {
+		for _, cs := range w.callersOf(s) {
+			n++
+			caller := rootFn(cs.Fn)
+			if caller != mark {
+				badCall += " " + fname(caller) + "@" + w.pos(cs.Call.Pos())
+			}
+		}
+		if len(w.usesAsValue(s)) > 0 {
+			badCall += " (taken as a function value)"
+		}
+	}
+	c.Check(n > 0 && badCall == "", id, "absent-mark:callers", mark.Pos(), fmt.Sprintf("%d call(s), all from the cluster-map lookup", n), "a copy is marked absent outside the cluster-map lookup:"+badCall+" — a live copy would drop out of the persistence minimum")
+}
+
+// collectionTableReadOnly (C03): the id→name table is built once (GetCollectionIDs) and shared by every observer of
+// the session; nothing updates or deletes an entry of a map[uint32]string afterwards. An entry removed for one
+// vBucket relabels the events of every other vBucket as _default.
+func collectionTableReadOnly(c *Ctx, id string) {
+	w := c.W
+	isTable := func(t types.Type) bool {
+		m, ok := t.Underlying().(*types.Map)
+		if !ok {
+			return false
+		}
+		k, ok1 := m.Key().Underlying().(*types.Basic)
+		v, ok2 := m.Elem().Underlying().(*types.Basic)
+		return ok1 && ok2 && k.Kind() == types.Uint32 && v.Kind() == types.String
+	}
+	n := 0
+	bad := ""
+	for _, fn := range w.ModFuncs {
+		allInstrs(fn, func(in ssa.Instruction) {
+			var m ssa.Value
+			switch x := in.(type) {
+			case *ssa.MapUpdate:
+				m = x.Map
+			case *ssa.Call:
+				if b, ok := x.Common().Value.(*ssa.Builtin); ok && (b.Name() == "delete" || b.Name() == "clear") && len(x.Common().Args) > 0 {
+					m = x.Common().Args[0]
+				}
+			}
+			if m == nil || !isTable(m.Type()) {
+				return
+			}
+			n++
+			// building a fresh table (a map made in this very function) is the one legitimate writer
+			if _, fresh := unwrap(m).(*ssa.MakeMap); fresh {
+				return
+			}
+			bad += " " + fname(fn) + "@" + w.pos(in.Pos())
+		})
+	}
+	c.Check(n > 0 && bad == "", id, "collection-table:read-only", 0, fmt.Sprintf("%d writes, all while building a fresh table", n), "the shared id→name table is changed after it was built:"+bad)
+}
+
+// whoMaySave (C01): the only thing ever handed to a checkpoint backend is the dump Checkpoint.Save built from the
+// tracked positions. Every invocation of Metadata.Save in the module is either that call, or a backend that wraps
+// another backend and forwards its own three parameters unchanged (the read-only wrapper). A helper that re-packs
+// documents into maps of its own (per-vBucket retries, batching) can file a position under another vBucket's key.
+func whoMaySave(c *Ctx, id string) {
+	w := c.W
+	n := 0
+	bad := ""
+	for _, fn := range w.ModFuncs {
+		allInstrs(fn, func(in ssa.Instruction) {
+			cc := callOf(in)
+			if cc == nil || !isInvokeOf(cc, "Metadata", "Save") || len(cc.Args) != 3 {
+				return
+			}
+			n++
+			root := rootFn(fn)
+			if fname(root) == "(*stream.checkpoint).Save" && fn == root {
+				return // judged argument by argument by the dump rule
+			}
+			// a wrapping backend: an implementation of Metadata.Save that passes its own parameters on
+			if root == fn && fn.Name() == "Save" && fn.Signature.Recv() != nil && len(fn.Params) == 4 {
+				same := true
+				for i := 0; i < 3; i++ {
+					if w.Origin(cc.Args[i]) != "param("+fn.Params[i+1].Name()+")" {
+						same = false
+					}
+				}
+				if same {
+					return
+				}
+			}
+			bad += " " + fname(fn) + "@" + w.pos(in.Pos())
+		})
+	}
+	c.Check(n > 0 && bad == "", id, "who-may-save", 0, fmt.Sprintf("%d invocations of Metadata.Save: Checkpoint.Save and forwarding wrappers only", n), "a checkpoint backend is handed something other than Checkpoint.Save's dump:"+bad)
+}
